@@ -81,4 +81,53 @@ theorem tableOffset_rep (m : Mode) (as : List Nat) (ss : List Int) (fs : List Na
       · rw [h1, h2]
         simp only [h3]
 
+/-! ### the offsets table itself is read in range -/
+
+theorem regionIndex_closed (a f p : Nat) :
+    (regionIndex a f p : Int) =
+      min (p : Int) (origin f) + max 0 ((p : Int) - max (origin f) ((a : Int) - f + origin f)) := by
+  induction p with
+  | zero =>
+    have ho := origin_spec f
+    simp only [regionIndex]
+    push_cast
+    omega
+  | succ p ih =>
+    simp only [regionIndex]
+    push_cast
+    rw [ih]
+    split <;> omega
+
+theorem regionIndex_lt (a f p : Nat) (hf : 0 < f) (hp : p < a) : regionIndex a f p < min a f := by
+  have ho := origin_spec f
+  have h := regionIndex_closed a f p
+  omega
+
+/-- the last coordinate of an axis uses the last region: the carry `cur_offsets_idx_ -= backstrides[d]`
+    (`backstrides = (step-1)*strides`) of `iterate_both` returns exactly to region 0. -/
+theorem regionIndex_last (a f : Nat) (hf : 0 < f) (ha : 0 < a) :
+    regionIndex a f (a - 1) = min a f - 1 := by
+  have ho := origin_spec f
+  have h := regionIndex_closed a f (a - 1)
+  omega
+
+theorem regionIdxPos_inside (as fs : List Nat) (p : List Int) (hf : ∀ f ∈ fs, 0 < f)
+    (hlen : fs.length = as.length) (hp : inside as p = true) :
+    inside (minShape as fs) (regionIdxPos as fs p) = true := by
+  induction as generalizing fs p with
+  | nil => cases fs <;> cases p <;> simp_all [inside, minShape, regionIdxPos]
+  | cons a as ih =>
+    cases fs with
+    | nil => simp at hlen
+    | cons f fs =>
+    cases p with
+    | nil => simp [inside] at hp
+    | cons x xs =>
+      simp only [inside, Bool.and_eq_true, decide_eq_true_eq] at hp
+      obtain ⟨⟨p0, p1⟩, p2⟩ := hp
+      have h1 := regionIndex_lt a f x.toNat (hf f (by simp)) (by omega)
+      have h2 := ih fs xs (fun g hg => hf g (by simp [hg])) (by simpa using hlen) p2
+      simp only [minShape, regionIdxPos, inside, h2, Bool.and_eq_true, decide_eq_true_eq, and_true]
+      omega
+
 end Mahotas.C10
